@@ -207,8 +207,30 @@ impl NodeId {
             "The node should be successfully detached"
         );
     }
-    #[verifier::external_body]
-    pub fn append<T>(self, new_child: NodeId, arena: &mut Arena<T>) {
+    pub fn append<T>(self, new_child: NodeId, arena: &mut Arena<T>)
+        // @props C01 C03 C05 C12
+        requires
+            old(arena).wf(),
+            old(arena).current(self),
+            old(arena).current(new_child),
+            // the unchecked form panics exactly when the checked form fails (see the must-panic variant)
+            !insert_impossible(old(arena).nodes@, self, new_child),
+        ensures
+            // @ob C01.wf@append C01 C02 C12
+            final(arena).wf(),
+            final(arena).first_free_slot == old(arena).first_free_slot,
+            final(arena).last_free_slot == old(arena).last_free_slot,
+            // @ob C05.append_has_the_effect_of_the_checked_form C05 C03
+            exists|m: Seq<Node<T>>| #[trigger]
+                detach_post(old(arena).nodes@, m, new_child.idx()) && insert_post(
+                    m,
+                    final(arena).nodes@,
+                    new_child,
+                    Some(self),
+                    m[self.idx()].last_child,
+                    None,
+                ),
+    {
         self.checked_append(new_child, arena)
             .expect("Preconditions not met: invalid argument");
     }
@@ -315,22 +337,81 @@ impl NodeId {
         }
         Ok(())
     }
-    #[verifier::external_body]
-    pub fn append_value<T>(self, value: T, arena: &mut Arena<T>) -> NodeId {
+    pub fn append_value<T>(self, value: T, arena: &mut Arena<T>) -> (r: NodeId)
+        // @props C01 C03 C05 C07 C08 C12
+        requires
+            old(arena).wf(),
+            old(arena).current(self),
+            // append_value panics exactly when self is removed (see the must-panic variant)
+            !old(arena).at(self).stamp.removed(),
+        ensures
+            // @ob C01.wf@append_value C01 C02 C12
+            final(arena).wf(),
+            // @ob C03.append_value_is_new_node_then_append C03 C07
+            exists|m: Arena<T>| #[trigger]
+                alloc_post(*old(arena), m, r, value) && insert_post(
+                    m.nodes@,
+                    final(arena).nodes@,
+                    r,
+                    Some(self),
+                    m.at(self).last_child,
+                    None,
+                ) && final(arena).first_free_slot == m.first_free_slot && final(arena).last_free_slot == m.last_free_slot,
+    {
         assert!(
             !arena[self].is_removed(),
             "Preconditions not met: removed node cannot have children"
         );
         let new_child = arena.new_node(value);
+        let ghost mid = *arena;
+        proof {
+            let w = choose|w: Ranks| ranked(mid.nodes@, w);
+            lemma_childless_not_anc(mid.nodes@, w, new_child.idx(), self.idx());
+        }
         self.append_new_node_unchecked(new_child, arena);
         new_child
     }
-    #[verifier::external_body]
-    pub fn append_new_node_unchecked<T>(self, new_child: NodeId, arena: &mut Arena<T>) {
+    pub fn append_new_node_unchecked<T>(self, new_child: NodeId, arena: &mut Arena<T>)
+        // @props C01 C03
+        requires
+            old(arena).wf(),
+            old(arena).live(new_child),
+            old(arena).live(self),
+            is_root(old(arena).nodes@, new_child.idx()),
+            new_child.idx() != self.idx(),
+            exists|w: Ranks| ranked(old(arena).nodes@, w) && !in_sub(old(arena).nodes@, w, new_child.idx(), self.idx()),
+        ensures
+            final(arena).wf(),
+            insert_post(old(arena).nodes@, final(arena).nodes@, new_child, Some(self), old(arena).at(self).last_child, None),
+            final(arena).first_free_slot == old(arena).first_free_slot,
+            final(arena).last_free_slot == old(arena).last_free_slot,
+    {
         insert_last_unchecked(arena, new_child, self);
     }
-    #[verifier::external_body]
-    pub fn prepend<T>(self, new_child: NodeId, arena: &mut Arena<T>) {
+    pub fn prepend<T>(self, new_child: NodeId, arena: &mut Arena<T>)
+        // @props C01 C03 C05 C12
+        requires
+            old(arena).wf(),
+            old(arena).current(self),
+            old(arena).current(new_child),
+            // the unchecked form panics exactly when the checked form fails (see the must-panic variant)
+            !insert_impossible(old(arena).nodes@, self, new_child),
+        ensures
+            // @ob C01.wf@prepend C01 C02 C12
+            final(arena).wf(),
+            final(arena).first_free_slot == old(arena).first_free_slot,
+            final(arena).last_free_slot == old(arena).last_free_slot,
+            // @ob C05.prepend_has_the_effect_of_the_checked_form C05 C03
+            exists|m: Seq<Node<T>>| #[trigger]
+                detach_post(old(arena).nodes@, m, new_child.idx()) && insert_post(
+                    m,
+                    final(arena).nodes@,
+                    new_child,
+                    Some(self),
+                    None,
+                    m[self.idx()].first_child,
+                ),
+    {
         self.checked_prepend(new_child, arena)
             .expect("Preconditions not met: invalid argument");
     }
@@ -437,8 +518,30 @@ impl NodeId {
         }
         Ok(())
     }
-    #[verifier::external_body]
-    pub fn insert_after<T>(self, new_sibling: NodeId, arena: &mut Arena<T>) {
+    pub fn insert_after<T>(self, new_sibling: NodeId, arena: &mut Arena<T>)
+        // @props C01 C03 C05 C12
+        requires
+            old(arena).wf(),
+            old(arena).current(self),
+            old(arena).current(new_sibling),
+            // the unchecked form panics exactly when the checked form fails (see the must-panic variant)
+            !insert_impossible(old(arena).nodes@, self, new_sibling),
+        ensures
+            // @ob C01.wf@insert_after C01 C02 C12
+            final(arena).wf(),
+            final(arena).first_free_slot == old(arena).first_free_slot,
+            final(arena).last_free_slot == old(arena).last_free_slot,
+            // @ob C05.insert_after_has_the_effect_of_the_checked_form C05 C03
+            exists|m: Seq<Node<T>>| #[trigger]
+                detach_post(old(arena).nodes@, m, new_sibling.idx()) && insert_post(
+                    m,
+                    final(arena).nodes@,
+                    new_sibling,
+                    m[self.idx()].parent,
+                    Some(self),
+                    m[self.idx()].next_sibling,
+                ),
+    {
         self.checked_insert_after(new_sibling, arena)
             .expect("Preconditions not met: invalid argument");
     }
@@ -549,8 +652,30 @@ impl NodeId {
         }
         Ok(())
     }
-    #[verifier::external_body]
-    pub fn insert_before<T>(self, new_sibling: NodeId, arena: &mut Arena<T>) {
+    pub fn insert_before<T>(self, new_sibling: NodeId, arena: &mut Arena<T>)
+        // @props C01 C03 C05 C12
+        requires
+            old(arena).wf(),
+            old(arena).current(self),
+            old(arena).current(new_sibling),
+            // the unchecked form panics exactly when the checked form fails (see the must-panic variant)
+            !insert_impossible(old(arena).nodes@, self, new_sibling),
+        ensures
+            // @ob C01.wf@insert_before C01 C02 C12
+            final(arena).wf(),
+            final(arena).first_free_slot == old(arena).first_free_slot,
+            final(arena).last_free_slot == old(arena).last_free_slot,
+            // @ob C05.insert_before_has_the_effect_of_the_checked_form C05 C03
+            exists|m: Seq<Node<T>>| #[trigger]
+                detach_post(old(arena).nodes@, m, new_sibling.idx()) && insert_post(
+                    m,
+                    final(arena).nodes@,
+                    new_sibling,
+                    m[self.idx()].parent,
+                    m[self.idx()].previous_sibling,
+                    Some(self),
+                ),
+    {
         self.checked_insert_before(new_sibling, arena)
             .expect("Preconditions not met: invalid argument");
     }
@@ -972,6 +1097,7 @@ impl<T> Arena<T> {
             // @ob C08.new_node_leaves_every_other_slot_untouched C08 C07 C01
             forall|i: int| 0 <= i < old(self).nodes@.len() && i != r.idx() ==> final(self).nodes@[i] == old(self).nodes@[i],
             final(self).nodes@.len() >= old(self).nodes@.len(),
+            alloc_post(*old(self), *final(self), r, data),
     {
         proof {
             axiom_vec_node_len(&self.nodes);
@@ -1470,8 +1596,28 @@ pub fn insert_with_neighbors<T>(
     debug_assert_triangle_nodes!(arena, parent, Some(new), next_sibling);
     Ok(())
 }
-#[verifier::external_body]
-pub fn insert_last_unchecked<T>(arena: &mut Arena<T>, new: NodeId, parent: NodeId) {
+pub fn insert_last_unchecked<T>(arena: &mut Arena<T>, new: NodeId, parent: NodeId)
+    // @props C01 C02 C03 C05 C08
+    requires
+        old(arena).wf(),
+        old(arena).live(new),
+        old(arena).live(parent),
+        is_root(old(arena).nodes@, new.idx()),
+        new.idx() != parent.idx(),
+        exists|w: Ranks| ranked(old(arena).nodes@, w) && !in_sub(old(arena).nodes@, w, new.idx(), parent.idx()),
+    ensures
+        // @ob C01.wf@insert_last_unchecked C01 C02 C12
+        final(arena).wf(),
+        // @ob C03.insert_last_exact_effect C03 C08
+        insert_post(old(arena).nodes@, final(arena).nodes@, new, Some(parent), old(arena).at(parent).last_child, None),
+        final(arena).first_free_slot == old(arena).first_free_slot,
+        final(arena).last_free_slot == old(arena).last_free_slot,
+{
+    let ghost w0 = choose|w: Ranks| ranked(old(arena).nodes@, w) && !in_sub(old(arena).nodes@, w, new.idx(), parent.idx());
+    proof {
+        lemma_gap_at_end(arena.nodes@, parent);
+        lemma_gap_transplant_pre(arena.nodes@, w0, new, Some(parent), arena.at(parent).last_child, None);
+    }
     let previous_sibling = arena[parent].last_child;
     DetachedSiblingsRange::new(new, new)
         .transplant(arena, Some(parent), previous_sibling, None)
@@ -1479,6 +1625,15 @@ pub fn insert_last_unchecked<T>(arena: &mut Arena<T>, new: NodeId, parent: NodeI
             "Should never fail, callers must verify assumptions when using fast path append.
                  `expect` only needed due to usage of shared functions that return a `Result`.",
         );
+    proof {
+        let c = seq![new.idx()];
+        assert(is_chain(old(arena).nodes@, new.idx(), c));
+        lemma_insert_links(old(arena).nodes@, arena.nodes@, w0, new, Some(parent), previous_sibling, None);
+        lemma_shift_subtree(old(arena).nodes@, w0, new.idx(), parent.idx());
+        let w1 = choose|w2: Ranks| ranked(old(arena).nodes@, w2) && (w2.depth)(new.idx()) > (w2.depth)(parent.idx());
+        lemma_insert_ranks(old(arena).nodes@, arena.nodes@, w1, new, Some(parent), previous_sibling, None);
+        lemma_relink_wf(*old(arena), *arena);
+    }
     debug_assert_triangle_nodes!(arena, Some(parent), previous_sibling, Some(new));
 }
 #[derive(Debug, Clone, Copy)]
